@@ -533,6 +533,20 @@ func mixCase(t *rapid.T, ext string) string {
 	return string(b)
 }
 
+// c20FixedReads: documents that exercise what readers might share between calls - styled SubRip text (tags, colours)
+// and coloured teletext rows (the package's exported colour values end up in the results) - two of each.
+func c20FixedReads() []c20Op {
+	var ops []c20Op
+	for k, word := range []string{"first", "second"} {
+		ops = append(ops, c20Op{Kind: "read", Format: "srt", Doc: []byte(fmt.Sprintf("1\n00:00:0%d,000 --> 00:00:0%d,500\n<b>%s bold</b> <i>italic</i> <u>under</u> <font color=\"#ff0000\">red</font>\n<b><i>both</i></b>\n", k+1, k+1, word))})
+		st := ttxStream{Mag: 2, Tens: 0, Units: uint8(k), Serial: true, OptPID: true, OptPage: true,
+			Instances: []ttxInstance{{PTS: 90000, Rows: []ttxRow{{Y: 20, Pre: []byte{0x03}, Segs: []ttxSeg{{Text: word}, {Codes: []byte{0x06}, Text: " cyan"}, {Codes: []byte{0x01, 0x0d}, Text: " red tall"}}}}}, {PTS: 180000}}}
+		doc, _ := st.render()
+		ops = append(ops, c20Op{Kind: "read", Format: "ts", Doc: doc, Opts: readOpts{PID: ttxPID, Page: st.pageOption()}})
+	}
+	return ops
+}
+
 var c20Transforms = []string{"add", "fragment", "unfragment", "order", "merge", "optimize", "removestyling", "forceduration", "linear"}
 
 func genC20Op(t *rapid.T) c20Op {
@@ -625,6 +639,7 @@ func TestC20(t *testing.T) {
 				run := exp[0].Lines[0].Runs[0]
 				pool = append(pool, c20Op{Kind: "read", Format: "ts", Doc: doc, Opts: readOpts{PID: ttxPID, Page: st.pageOption()}, WantAny: []string{fmt.Sprintf("%q", run.Text), fmt.Sprintf("%q", run.AltText)}})
 			}
+			pool = append(pool, c20FixedReads()...)
 			// two scripts whose colours have the same digits, one decimal and one hexadecimal: results known by construction
 			for _, sc := range [][2]string{{"16777215", "Blue:255 Green:255 Red:255"}, {"&H16777215", "Alpha:22 Blue:119 Green:114 Red:21"}} {
 				doc := []byte("[Script Info]\nTitle: t\n\n[V4 Styles]\nFormat: Name, PrimaryColour\nStyle: a," + sc[0] + "\n\n[Events]\nFormat: Start, End, Style, Text\nDialogue: 0:00:01.00,0:00:02.00,a,x\n")
@@ -706,6 +721,7 @@ func TestC20(t *testing.T) {
 		td := genTTMLDoc(rt, false)
 		td.Lang = code
 		pool = append(pool, c20Op{Kind: "read", Format: "ttml", Doc: renderTTML(td, ttmlRendering{StylePfx: "tts", XMLID: true, EOL: "\n"})}, c20Op{Kind: "write", Format: "ttml", Spec: &gl})
+		pool = append(pool, c20FixedReads()...)
 		// the file-level helpers under extension spellings this process has not met yet
 		for _, f := range []string{"srt", "vtt", "ttml", "ssa", "stl"} {
 			pool = append(pool, c20Op{Kind: "write", Format: "file:" + mixCase(rt, f), Spec: &g},
